@@ -353,6 +353,83 @@ def check(ctx):
     ctx.instance('C03.R7', 'encode_tag: low-tag-number form below 31', 'ok' if ok else 'VIOLATION', node=f, file=BER)
     if not ok:
         ctx.violation('C03.R7', BER, f, Model.qual(f), 'tag numbers 0..30 must use the single-octet form (X.690 8.1.2.2)', stmt='low tag form')
+    # the identifier octets themselves, by bounded evaluation of encode_tag (sa/evalexpr.py) against X.690 8.1.2: one octet below 31, otherwise 0x1f and the
+    # number in base 128 with the fewest octets (8.1.2.4.2 c: the first subsequent octet is not 0x80)
+    from .. import evalexpr
+
+    def ref_ber_tag(number, flags):
+        if number < 31:
+            return bytes([flags | number])
+        groups = []
+        while number > 0:
+            groups.append(number & 0x7f)
+            number >>= 7
+        groups.reverse()
+        return bytes([flags | 0x1f] + [0x80 | g for g in groups[:-1]] + [groups[-1]])
+    pn7 = flow.param_names(f)
+    n_ok = n_und = 0
+    bad7 = und7 = None
+    for flags in (0x00, 0x20, 0x40, 0x80, 0xa0, 0xc0):
+        for number in (0, 1, 30, 31, 32, 63, 64, 100, 127, 128, 129, 255, 256, 8191, 8192, 16383, 16384, 2 ** 21 - 1, 2 ** 21, 2 ** 28 + 5):
+            try:
+                got, _env = evalexpr.run_function(f, {pn7[0]: number, pn7[1]: flags})
+                got = bytes(got)
+            except (evalexpr.Unsupported, evalexpr.Raised, KeyError, TypeError, IndexError, ValueError) as e:
+                n_und += 1
+                und7 = und7 or 'encode_tag(%d, 0x%02x): %s' % (number, flags, e)
+                continue
+            want = ref_ber_tag(number, flags)
+            if got != want:
+                bad7 = bad7 or 'encode_tag(%d, 0x%02x) gives %s, X.690 8.1.2 prescribes %s' % (number, flags, got.hex(), want.hex())
+            else:
+                n_ok += 1
+    ctx.instance('C03.R7', 'encode_tag against X.690 8.1.2: %d (number, class/form) cases evaluated, %d undecided' % (n_ok, n_und), 'VIOLATION' if bad7 else ('ok' if n_ok else 'undecided'),
+                 und7 or '', nontrivial=n_ok > 0, node=f, file=BER)
+    if bad7:
+        ctx.violation('C03.R7', BER, f, Model.qual(f), bad7 + ': the identifier octets are not the distinguished form (a conforming reader may reject a leading 0x80 octet)', stmt='tag octets')
+    # definite lengths and INTEGER contents, the same way: X.690 8.1.3 / 10.1 (short form up to 127, else the fewest length octets) and 8.3.2 (the
+    # first nine bits of an INTEGER are not all equal)
+    def evaluate(fname, cases, ref, what, why):
+        g = model.func(BER, fname)
+        gp = flow.param_names(g)
+        n_ok_ = n_und_ = 0
+        bad_ = und_ = None
+        for v in cases:
+            try:
+                got_, _e = evalexpr.run_function(g, {gp[0]: v})
+                got_ = bytes(got_)
+            except evalexpr.Raised:
+                bad_ = bad_ or '%s(%d) raises' % (fname, v)
+                continue
+            except (evalexpr.Unsupported, KeyError, TypeError, IndexError, ValueError) as e:
+                n_und_ += 1
+                und_ = und_ or '%s(%d): %s' % (fname, v, e)
+                continue
+            if got_ != ref(v):
+                bad_ = bad_ or '%s(%d) gives %s, %s prescribes %s' % (fname, v, got_.hex(), what, ref(v).hex())
+            else:
+                n_ok_ += 1
+        ctx.instance('C03.R7', '%s against %s: %d cases evaluated, %d undecided' % (fname, what, n_ok_, n_und_), 'VIOLATION' if bad_ else ('ok' if n_ok_ else 'undecided'), und_ or '',
+                     nontrivial=n_ok_ > 0, node=g, file=BER)
+        if bad_:
+            ctx.violation('C03.R7', BER, g, Model.qual(g), bad_ + ': ' + why, stmt='%s octets' % fname)
+
+    def ref_length(n):
+        if n <= 127:
+            return bytes([n])
+        k = (n.bit_length() + 7) // 8
+        return bytes([0x80 | k]) + n.to_bytes(k, 'big')
+
+    def ref_integer(v):
+        k = 1
+        while not -(1 << (8 * k - 1)) <= v < (1 << (8 * k - 1)):
+            k += 1
+        return v.to_bytes(k, 'big', signed=True)
+    evaluate('encode_length_definite', (0, 1, 126, 127, 128, 129, 255, 256, 257, 65535, 65536, 2 ** 24 - 1, 2 ** 24, 2 ** 32 - 1, 2 ** 32, 2 ** 40 + 3), ref_length,
+             'X.690 10.1', 'a DER length uses the short form up to 127 and the fewest octets above')
+    evaluate('encode_signed_integer', (0, 1, -1, 127, 128, -128, -129, 255, 256, -256, -257, 32767, 32768, -32768, -32769, 2 ** 23 - 1, 2 ** 23, -2 ** 23, -2 ** 23 - 1,
+                                       2 ** 31 - 1, 2 ** 31, -2 ** 31, 2 ** 63 - 1, 2 ** 63, -2 ** 63, -2 ** 63 - 1, 2 ** 64, 2 ** 71 - 1, 2 ** 71), ref_integer,
+             'X.690 8.3.2', 'INTEGER contents are the shortest two\'s complement form (the first nine bits are not all equal)')
     f = model.func(BER, 'Boolean.encode_content')
     ints = sorted({n.value for n in ast.walk(f) if isinstance(n, ast.Constant) and isinstance(n.value, int) and not isinstance(n.value, bool)})
     ok = ints == [255]
@@ -501,3 +578,36 @@ MUTANTS.append(dict(name='ExplicitTag keeps the DEFAULT itself and compares with
 """, new="""    def is_default(self, value):
         return self.inner.default is not None and value == self.inner.default
 """, expect='C03.R3'))
+
+MUTANTS.append(dict(name='high tag numbers start with a redundant 0x80 octet when the number fills its groups', file=BER,
+                    old="""        encoded[0] &= 0x7f
+        encoded.reverse()
+        tag.extend(encoded)
+
+    return tag""", new="""        if number_of_groups_is_full:
+            encoded.append(0x80)
+
+        encoded[0] &= 0x7f
+        encoded.reverse()
+        tag.extend(encoded)
+
+    return tag""", expect='C03.R7', edits=[dict(file=BER, old="""        tag = bytearray([flags | 0x1f])
+        encoded = bytearray()
+""", new="""        tag = bytearray([flags | 0x1f])
+        encoded = bytearray()
+        number_of_groups_is_full = number.bit_length() % 7 == 0
+"""), dict(file=BER, old="""        encoded[0] &= 0x7f
+        encoded.reverse()
+        tag.extend(encoded)
+
+    return tag""", new="""        if number_of_groups_is_full:
+            encoded.append(0x80)
+
+        encoded[0] &= 0x7f
+        encoded.reverse()
+        tag.extend(encoded)
+
+    return tag""")]))
+
+MUTANTS.append(dict(name='INTEGER octet count from bit_length without the sign correction', file=BER,
+                    old="    byte_length = (8 + (number + (number < 0)).bit_length()) // 8", new="    byte_length = (8 + number.bit_length()) // 8", expect='C03.R7'))
